@@ -6,6 +6,7 @@ import (
 	"math/big"
 
 	crypto "github.com/onflow/crypto"
+	"github.com/onflow/crypto/hash"
 	"verifharness/ref"
 )
 
@@ -118,7 +119,53 @@ func RunVerify(c VerifyCase) (res Result) {
 				fmt.Sprintf("Sign under key %v / hasher %s returned %x (err %v), the reference sk*H(m) is %x", c.Key, hcls, []byte(s2), err, valid.Compress())})
 		}
 	}
+	if w.H2CMismatch != "" {
+		res.Violations = append(res.Violations, Violation{"C01", "DocumentedHashToCurve", w.H2CMismatch + fmt.Sprintf(" [seed %d]", c.Seed)})
+	}
 	return
+}
+
+// fixedHasher returns a prescribed 128-byte expander output, whatever the message
+type fixedHasher struct {
+	customHasher
+	out []byte
+}
+
+func (f *fixedHasher) ComputeHash(d []byte) hash.Hash { return append([]byte(nil), f.out...) }
+func (f *fixedHasher) SumHash() hash.Hash             { return f.ComputeHash(nil) }
+
+// HashToCurveSweep: crafted expander outputs at the edges of hash_to_field / the SSWU map (chunks 0, 1, p-1, p, p+1,
+// 2p, the largest 512-bit value, chunks that make u0 = u1, u0 = -u1, leading-zero chunks) and random ones: what the library
+// signs under the secret key 1 must be the documented hash-to-curve image computed by the reference.
+func HashToCurveSweep(seed int64, res *Result) {
+	w := NewWorld(seed)
+	be := func(v *big.Int) []byte { b := make([]byte, 64); v.FillBytes(b); return b }
+	p := ref.P
+	max := new(big.Int).Sub(new(big.Int).Lsh(big.NewInt(1), 512), big.NewInt(1))
+	rnd := func() *big.Int { b := make([]byte, 64); w.Rng.Read(b); return new(big.Int).SetBytes(b) }
+	edge := []*big.Int{big.NewInt(0), big.NewInt(1), new(big.Int).Sub(p, big.NewInt(1)), p, new(big.Int).Add(p, big.NewInt(1)),
+		new(big.Int).Lsh(p, 1), new(big.Int).Mul(p, big.NewInt(1000003)), max, new(big.Int).Rsh(max, 131), big.NewInt(11), rnd(), rnd()}
+	var outs [][]byte
+	for _, a := range edge {
+		for _, b := range []*big.Int{edge[int(seed)%len(edge)], rnd(), a, new(big.Int).Sub(p, new(big.Int).Mod(a, p))} { // incl. u1 = u0 and u1 = -u0 (sum at infinity on E1')
+			outs = append(outs, append(be(a), be(b)...))
+			outs = append(outs, append(be(b), be(a)...))
+		}
+	}
+	for i := 0; i < 40; i++ {
+		outs = append(outs, append(be(rnd()), be(rnd())...))
+	}
+	for _, o := range outs {
+		res.Evals++
+		want := ref.HashBytesToG1(o).Compress()
+		got, err := w.one.Sign([]byte("m"), &fixedHasher{out: o})
+		if err != nil || !bytes.Equal(got, want) {
+			if len(res.Violations) < 5 {
+				res.Violations = append(res.Violations, Violation{"C01", "DocumentedHashToCurve",
+					fmt.Sprintf("expander output %x: Sign(sk = 1) = %x (err %v), the documented hash-to-curve image is %x [seed %d]", o, []byte(got), err, want, seed)})
+			}
+		}
+	}
 }
 
 // Sweeps around one valid signature (C01 quantifier: every single-bit flip, every length 0..200, other tag, other message)
@@ -136,6 +183,7 @@ func VerifySweep(seed int64) (res Result) {
 			res.Violations = append(res.Violations, Violation{"C01", "AcceptanceSet", d + fmt.Sprintf(" [seed %d]", seed)})
 		}
 	}
+	HashToCurveSweep(seed, &res)
 	ks := w.Scalar("x1")
 	sk := w.SK(ks)
 	pk := sk.PublicKey()
